@@ -2,7 +2,8 @@
 From Coq Require Import Permutation Sorted.
 From HTA.lib Require Import Base Sweep.
 From HTA.model Require Import C14_Model.
-From HTA.proof Require Import C14_Proofs.
+From HTA.gen Require Import KernelRules_gen.
+From HTA.proof Require Import KernelRulesTie C14_Proofs.
 Open Scope list_scope.
 Open Scope Z_scope.
 
@@ -77,3 +78,15 @@ Example C14_nonvacuous :
   map (fun t => snd (fst t)) (encode_queue ex14) = [[[1; 1]; [1; 2]; [1; 1]; [3; 0]]] /\
   encode_bw ["Memcpy DtoH"] (map (fun e => (e, 10)) ex14) = [(0, [[3; 10]; [4; 0]])].
 Proof. vm_compute. split; reflexivity. Qed.
+
+(* the tie by regeneration: the kernel classification of the model is the chain GENERATED from the current source (get_kernel_type, the codes of
+   KernelType, the three regex wrappers; the regular expressions themselves are compared literally on every run) *)
+Theorem C14_kernel_types_follow_source : forall n,
+  ktype_code (get_kernel_type n) = kernel_type_gen (is_comm_kernel n) (is_memory_kernel n) (is_compute_kernel n).
+Proof. exact kernel_type_is_generated. Qed.
+Print Assumptions C14_kernel_types_follow_source.
+
+(* and the copy-type label of a memory activity is the one get_memory_kernel_type, GENERATED from the source, returns *)
+Theorem C14_memory_types_follow_source : forall n, mem_type n = mem_type_gen n.
+Proof. exact mem_type_is_generated. Qed.
+Print Assumptions C14_memory_types_follow_source.
